@@ -358,6 +358,11 @@ def c15(sc, tier, seed):
         if p_['status'] == 'ok' and p_['cmd'] and bytes(p_['cmd'][0]).upper() in (b'CLIENT', b'INFO', b'HELLO'):
             for x in (p_['r2'], p_['r3']):
                 norm_digits(x)
+                # CLIENT LIST has one line per connection that happens to be open at that moment (the twin
+                # connection of the other protocol may or may not be): the distinct normalised lines are compared
+                if bytes(p_['cmd'][0]).upper() == b'CLIENT' and isinstance(x.get('s'), list) and 10 in x['s']:
+                    lines_ = sorted(set(l_ for l_ in bytes(x['s']).decode('latin-1').split('\n') if l_))
+                    x['s'] = [ord(ch) for ch in '\n'.join(lines_) + '\n']
                 if x.get('t') == 'int':
                     x['n'] = '0'
                 for y in x.get('a', []) if isinstance(x.get('a'), list) else []:
